@@ -44,7 +44,7 @@ const CLASSES: &[&str] = &[
     "roundtrip",
 ];
 
-fn hc(thorough: bool) -> HistCheck<'static> {
+pub fn hc(thorough: bool) -> HistCheck<'static> {
     HistCheck {
         focus: "C04",
         profile: profile(thorough),
